@@ -94,3 +94,10 @@ Inductive arm_effect :=
 Inductive xdest :=
 | XCannotCache
 | XList (d : dest).
+
+(* a component of the argument vector that c.rs generate_hash_key hands to a key function *)
+Inductive keycomp :=
+| KList (d : dest)                       (* a whole list of ParsedArguments *)
+| KFiltered (d : dest) (pred : bytes)    (* the list minus the words a predicate (named) rejects *)
+| KProfileOutput                         (* the absolute output path, for profile / coverage builds *)
+| KCwd.                                  (* the working directory *)
